@@ -118,12 +118,16 @@ def random_cfgs(tier, base_id, algos=("SOO", "StoSOO", "DOO"), neg=False):
             box = rnd.choice([b for b in PC.BOXES if len(b) == D])
             n = rnd.choice([50, 100, 150]) if tier == "quick" else rnd.choice([50, 100, 200, 400])
             prm = {}
+            ar = A.arity(kind, Kk, D)
+            tight = 0
+            while (ar ** (tight + 1) - 1) // (ar - 1) < n:   # smallest depth cap whose cells hold the budget
+                tight += 1
             if algo == "SOO":
-                prm["h_max"] = rnd.choice([100, n, 12])
+                prm["h_max"] = rnd.choice([100, n, tight, tight])
             if algo == "StoSOO":
                 prm["k"] = rnd.choice([None, 1, 2, 3, 5])
                 prm["delta"] = rnd.choice([None, 0.1, 0.3])
-                prm["h_max"] = rnd.choice([100, n])
+                prm["h_max"] = rnd.choice([100, n, tight + 1])
             if algo == "DOO" and rnd.random() < 0.5:
                 prm["delta_kind"] = rnd.choice(["pow2", "lin"])
             i += 1
